@@ -1342,6 +1342,7 @@ func main() {
 	around := flag.Int("around", -1, "exploration depth at the hold points of each shape (0 = the three continuation policies only, -1 = off)")
 	aroundRuns := flag.Int("around-runs", 40, "")
 	flag.IntVar(&maxHung, "max-hung", 3, "stop generating after this many hung runs")
+	handN := flag.Int("hand", 0, "hand-ticked histories over the model's command kinds (noop, kernel, zero-byte copy)")
 	copyN := flag.Int("copy", 0, "copy mode: number of hand-ticked multi-queue copy cases")
 	stressS := flag.Float64("stress", 0, "run the un-instrumented stress loop for this many seconds")
 	stressW := flag.Int("workers", 8, "")
@@ -1357,6 +1358,8 @@ func main() {
 	switch {
 	case *stressS > 0 || *stressN > 0:
 		result = stress(*stressS, *stressW, *stressN, *stressMix, *stressChaos, *stressOneQ, *seed)
+	case *handN > 0:
+		result = handCases(*seed, *handN)
 	case *copyN > 0:
 		result = copyCases(*seed, *copyN)
 	case *replay != "" && isCopyReplay(*replay):
